@@ -20,20 +20,20 @@ Definition w_f : fn :=
          (BCons (SLoop 5 (BCons (SSimple 6) BNil) BNil) (BCons (SReturn 7) BNil))).
 Definition w_E : list edge := [(1, 2); (2, 3); (2, 4); (3, 5); (4, 5); (5, 6); (5, 7); (6, 5); (7, 0)].
 Definition w_ns : list lnode :=
- [(mknode 1 true (mkscope [] [] [1; 2; 3] [] [] [] [] [1; 2; 3] []) [] [] [] [] [] [4; 5; 6] [4; 5; 6] [] [1; 2; 3] [] [] 0);
-  (mknode 2 true (mkscope [4] [] [] [] [] [] [] [] []) [] [] [] [] [] [4; 5; 6] [5; 6] [4] [] [] [] 0);
-  (mknode 3 true (mkscope [6] [7] [7] [] [] [] [] [] []) [] [] [] [] [] [5; 6] [5; 6] [6] [7] [] [] 0);
-  (mknode 4 true (mkscope [6] [7] [7] [] [] [] [] [] []) [] [] [] [] [] [5; 6] [5; 6] [6] [7] [] [] 0);
-  (mknode 5 true (mkscope [5] [7] [7] [] [] [] [] [] []) [] [] [] [] [] [5; 6] [5; 6; 7] [5] [] [] [7] 6);
-  (mknode 6 false empty_scope [] [] [] [] [] [5; 6] [5; 6] [] [] [] [] 0);
-  (mknode 7 true (mkscope [6; 7] [] [] [] [] [] [] [] []) [] [] [] [] [] [6; 7] [] [6; 7] [] [] [] 0)].
+ [(mknode 1 true (mkscope [] [] [1; 2; 3] [] [] [] [] [1; 2; 3] []) [] [] [] [] [] [] [4; 5; 6] [4; 5; 6] [] [1; 2; 3] [] [] 0 0);
+  (mknode 2 true (mkscope [4] [] [] [] [] [] [] [] []) [] [] [] [] [] [] [4; 5; 6] [5; 6] [4] [] [] [] 0 0);
+  (mknode 3 true (mkscope [6] [7] [7] [] [] [] [] [] []) [] [] [] [] [] [] [5; 6] [5; 6] [6] [7] [] [] 0 0);
+  (mknode 4 true (mkscope [6] [7] [7] [] [] [] [] [] []) [] [] [] [] [] [] [5; 6] [5; 6] [6] [7] [] [] 0 0);
+  (mknode 5 true (mkscope [5] [7] [7] [] [] [] [] [] []) [] [] [] [] [] [] [5; 6] [5; 6; 7] [5] [] [] [7] 6 6);
+  (mknode 6 false empty_scope [] [] [] [] [] [] [5; 6] [5; 6] [] [] [] [] 0 0);
+  (mknode 7 true (mkscope [6; 7] [] [] [] [] [] [] [] []) [] [] [] [] [] [] [6; 7] [] [6; 7] [] [] [] 0 0)].
 
 Theorem liveness_for_header_refuted :
   exists (E : list edge) (ns : list lnode) (f : fn) n d tr o d' pre s mid k post x,
     incl_edges (cfg_fn f) E = true /\ lv_fix lv_table E ns (reach_bwd E) = true /\
-    lv_sound E ns true (reach_bwd E) = true /\
+    lv_sound E ns true true (reach_bwd E) = true /\
     exec_fn n f d = (tr, o, d') /\ o <> OFuel /\ top_ok f = true /\ guard_block (f_body f) = true /\ normal_end o /\
-    tr = pre ++ s :: mid ++ k :: post /\ lgen ns true k x /\
+    tr = pre ++ s :: mid ++ k :: post /\ lgen ns true true k x /\
     (forall m nx, In (m, nx) (steps mid k) -> ~ dynw name (find_node ns) m nx x) /\
     ~ (forall m nx, In (m, nx) (steps mid k) -> ~ exhausted name (find_node ns) m nx x) /\
     memn x (n_out (find_node ns s)) = false.
